@@ -503,6 +503,11 @@ def _mutations(spec):
             m = copy.deepcopy(spec)
             m[key] = m[key][1:]
             yield "dependence-missing", m
+        # one access moved across the access it conflicts with: that dependence has the other direction
+        for k in range(len(spec[key])):
+            m = copy.deepcopy(spec)
+            m[key][k] = list(reversed(m[key][k]))
+            yield f"dependence-reversed:{k}", m
 
 
 CHECKER_TRIAGED = {}
@@ -524,6 +529,10 @@ def rule_i(ctx, out):
         "byte-store": _spec([("SUB", "Y", "X")], stores=[("MSTORE8", "X", "Y")]),
         "storage": _spec([("SLOAD", "X")], stores=[("SSTORE", "X", ("AND", "Y", 255)), ("SSTORE", "Z", 7)], sto_deps=[("SLOAD_0", "SSTORE_0"), ("SSTORE_0", "SSTORE_1")]),
         "hash": _spec([("KECCAK256", "X", 64)], stores=[("MSTORE", "X", "Y")], mem_deps=[("MSTORE_0", "KECCAK256_0")]),
+        # several accesses with the same opcode: the search for "the same access in the other block" has more than one candidate
+        "two-loads": _spec([("SLOAD", "X"), ("SLOAD", "Y")], stores=[("SSTORE", "Z", 7)], sto_deps=[("SLOAD_0", "SSTORE_0"), ("SLOAD_1", "SSTORE_0")]),
+        "three-mloads": _spec([("MLOAD", "X"), ("MLOAD", "Y"), ("MLOAD", ("ADD", "X", 64))], stores=[("MSTORE", "Z", "X")],
+                              mem_deps=[("MLOAD_0", "MSTORE_0"), ("MLOAD_1", "MSTORE_0"), ("MLOAD_2", "MSTORE_0")]),
     }
 
     def verdict(a, b):
@@ -565,7 +574,81 @@ def rule_i(ctx, out):
         raise AnalysisError(f"only {n} specification pairs compared")
 
 
+def rule_j(ctx, out):
+    """The block comparison looks at every part of a block.  compare_asm_block_asm_format is interpreted (own interpreter) with the
+    specification generator and the specification comparison replaced by models driven by stand-in blocks — a block is (leading items,
+    sub-block specifications, the sub-block list with the shared split instructions, closing items).  Identical blocks must be
+    answered equal; a block that differs in exactly one part (one sub-block specification, a leading item, a closing item, a split
+    instruction — which belongs to no sub-block specification —, the number of sub-blocks) must not."""
+    import copy
+    from ..core.interp import ModuleInterp
+    f = ctx.func("gasol_asm.compare_asm_block_asm_format")
+    verifier = ctx.callee_in(f, V)
+
+    class Blk:
+        def __init__(self, init, specs, subs, final, name="block7"):
+            self.init, self.specs, self.subs, self.final, self.name = init, specs, subs, final, name
+
+        def get_block_name(self):
+            return self.name
+
+        def set_block_name(self, n):
+            self.name = n
+
+        def instructions_initial_bytecode(self):
+            return list(self.init)
+
+        def instructions_final_bytecode(self):
+            return list(self.final)
+
+    def sfs_model(block, params=None, *a, **k):
+        return {"syrup_contract": {f"{block.name}_{i}": sp for i, sp in enumerate(block.specs)}}, [list(x) for x in block.subs]
+
+    def verify_model(old, new, *a, **k):
+        same = [old[k_] for k_ in sorted(old)] == [new[k_] for k_ in sorted(new)]
+        return same, ("" if same else "specifications differ")
+    mi = ModuleInterp(ctx, obj_types=(Blk,), max_steps=50000,
+                      extern={"compute_original_sfs_with_simplifications": sfs_model, verifier.name: verify_model})
+    base = Blk(["tag 1", "JUMPDEST"], ["spec-a", "spec-b", "spec-c"],
+               [["PUSH 1", "PUSH 2", "LOG0"], ["LOG0", "PUSH 3", "DUP1", "SSTORE"], ["SSTORE", "ADD"]], ["JUMP"])
+
+    def variant(**kw):
+        b = copy.deepcopy(base)
+        for k_, v in kw.items():
+            setattr(b, k_, v)
+        return b
+    cases = [("identical", variant(), True),
+             ("sub-block-specification", variant(specs=["spec-a", "spec-x", "spec-c"]), False),
+             ("leading-item", variant(init=["tag 2", "JUMPDEST"]), False),
+             ("closing-item", variant(final=["JUMPI"]), False),
+             ("closing-item-missing", variant(final=[]), False),
+             ("split-instruction", variant(subs=[["PUSH 1", "PUSH 2", "GAS"], ["GAS", "PUSH 3", "DUP1", "SSTORE"], ["SSTORE", "ADD"]]), False),
+             ("last-split-instruction", variant(subs=[["PUSH 1", "PUSH 2", "LOG0"], ["LOG0", "PUSH 3", "DUP1", "MSTORE"], ["MSTORE", "ADD"]]), False),
+             ("trailing-split-instruction", variant(subs=base.subs + [["CALLDATACOPY"]]), False),
+             ("number-of-sub-blocks", variant(specs=["spec-a", "spec-b"], subs=base.subs[:2]), False)]
+    for label, other, want in cases:
+        for old, new, direction in ((copy.deepcopy(base), other, "as the new block"), (other, copy.deepcopy(base), "as the old block")):
+            try:
+                r = mi.call(f, old, new, None)
+            except Raised as e:
+                out.bad(f"block-comparison-raises:{label}", f"compare_asm_block_asm_format raises {e.what} on stand-in blocks ({label})", where(f))
+                continue
+            except Unsupported as e:
+                raise AnalysisError(f"compare_asm_block_asm_format: cannot evaluate abstractly: {e}")
+            got = bool(r[0]) if isinstance(r, tuple) else bool(r)
+            if got == want:
+                out.ok({"variant": label, "given": direction, "verdict": "equal" if got else "different"})
+            elif want:
+                out.bad("block-comparison-rejects-identical", "compare_asm_block_asm_format answers 'different' for a block and its copy", where(f))
+            else:
+                out.bad(f"block-comparison-ignores:{label}", f"compare_asm_block_asm_format answers 'equal' for two blocks that differ in one {label.replace('-', ' ')} "
+                        f"(the changed block given {direction}): that part of a block is compared nowhere", where(f))
+            if new.name != "block7" or old.name != "block7":
+                out.bad("block-comparison-renames-block", "the comparison leaves a block under another name", where(f))
+
+
 RULES = [
+    ("C05.j", "the block comparison looks at every part of a block (split instructions included)", 18, rule_j),
     ("C05.i", "the comparison is sensitive to every component of a specification", 100, rule_i),
     ("C05.h", "byte stores take part in the comparison", 4, rule_h),
     ("C05.g", "an unmatched dependence is decided, never skipped", 2, rule_g),
